@@ -169,10 +169,9 @@ class GeffReader:
         else:
             missing = None
         if _path.DATA in zarr_prop:
-            data = np.array(
-                zarr_prop[_path.DATA][mask.tolist() if mask is not None else ...],
-                dtype=dtype,
-            )
+            # The data array is shared by all elements (the values rows hold offsets into
+            # it), so it is never masked
+            data = np.array(zarr_prop[_path.DATA][...], dtype=dtype)
         else:
             data = None
 
